@@ -448,7 +448,7 @@ fn emit_trace(
     let mut call_gid: Vec<i64> = vec![-1; calls.len()]; // -1 no change, 0 delete, >0 gen id
     let mut events: Vec<Value> = Vec::new();
     events.push(json!({"e": "init", "ds": 16, "de": total_blocks, "fmt": fmt, "ttl": ttl, "nk": keys.len(),
-                        "now": rk(start_now), "cc": cc}));
+                        "now": rk(start_now), "cc": if cc { 1 } else { 0 }}));
     let mut dev = ConcreteDev::new((total_blocks as usize) * L::BLOCK);
     if fmt < 3 {
         // the legacy device was created by the harness before the store opened it
@@ -572,7 +572,7 @@ fn emit_trace(
             let base = match std::fs::read(&c.img) { Ok(b) => b, Err(_) => continue };
             let mut ev2: Vec<Value> = Vec::new();
             ev2.push(json!({"e": "init", "ds": 16, "de": total_blocks, "fmt": fmt, "ttl": ttl, "nk": keys.len(),
-                            "now": rk(c.now), "cc": true}));
+                            "now": rk(c.now), "cc": 1}));
             for g in &gens.gens {
                 ev2.push(json!({"e": "gen", "g": g.id, "k": g.kid, "ts": rk(g.ts), "exp": rk(g.exp), "n": g.blocks}));
             }
@@ -765,4 +765,92 @@ fn rec_event(c: &Cut, r: &Value, keys: &[Vec<u8>], gens: &GenTable, rk: &dyn Fn(
         "res": {"ok": r["ok"], "err": r["err"], "kv": kv, "len": r["len"], "extra": r["extra"],
                 "at": keys.iter().enumerate().map(|(i, _)| r["recs"].get(i).and_then(|x| x["at"].as_u64()).unwrap_or(0)).collect::<Vec<_>>(),
                 "free": r.get("free").cloned().unwrap_or(json!([]))}})
+}
+
+/// C04/C11: a recovery with more than 1024 non-adjacent repairs (journal chunking): expired newest
+/// generations at lower sectors than their older generations. Recovery's own writes are cut at every
+/// fsync boundary and each durable state is recovered again by the real code.
+pub fn chunkrec_main(args: &[String]) -> i32 {
+    let o = Opts::parse(args);
+    let n: usize = o.num("keys", 1100);
+    let dir = o.req("dir").to_string();
+    let out_path = o.req("out").to_string();
+    std::fs::create_dir_all(&dir).ok();
+    let now: u64 = 1_000 * E9;
+    let total_blocks: u64 = 16 + 4 * n as u64 + 8;
+    let mut img = vec![0u8; total_blocks as usize * L::BLOCK];
+    let meta = L::encode_meta(3, 2, 0, 0, total_blocks * 4096);
+    img[..4096].copy_from_slice(&meta);
+    let keys: Vec<Vec<u8>> = (0..n).map(|i| format!("c{i:05}").into_bytes()).collect();
+    let mut gens = GenTable::default();
+    let base2 = 16u64;                 // newest (expired) generations, every second block
+    let base1 = 16 + 2 * n as u64;     // older generations
+    for (i, k) in keys.iter().enumerate() {
+        let v2 = format!("new-{i}").into_bytes();
+        let v1 = format!("old-{i}").into_bytes();
+        let (ts2, exp2) = (now - 50 * E9 + i as u64, now - E9);
+        let ts1 = now - 90 * E9 + i as u64;
+        let s2 = base2 + 2 * i as u64;
+        let s1 = base1 + 2 * i as u64;
+        let r2 = L::encode_record(3, s2, k, &v2, ts2, exp2);
+        let r1 = L::encode_record(3, s1, k, &v1, ts1, 0);
+        img[s2 as usize * L::BLOCK..s2 as usize * L::BLOCK + r2.len()].copy_from_slice(&r2);
+        img[s1 as usize * L::BLOCK..s1 as usize * L::BLOCK + r1.len()].copy_from_slice(&r1);
+        gens.add(i + 1, k, ts1, 0, &v1, 3);
+        gens.add(i + 1, k, ts2, exp2, &v2, 3);
+    }
+    // ranks
+    let mut times: BTreeSet<u64> = BTreeSet::new();
+    times.insert(now);
+    for g in &gens.gens { times.insert(g.ts); if g.exp != 0 { times.insert(g.exp); } }
+    let rank: HashMap<u64, usize> = times.iter().enumerate().map(|(i, t)| (*t, i + 1)).collect();
+    let rk = move |t: u64| -> usize { if t == 0 { 0 } else { *rank.get(&t).unwrap_or(&0) } };
+    let base_path = format!("{dir}/base.bin");
+    std::fs::write(&base_path, &img).expect("write base");
+    let cut0 = vec![Cut { at_event: 0, now, units: vec![], img: base_path.clone() }];
+    let r0 = recover_images(&cut0, &keys, true, &dir, 1, true);
+    let wl = match r0[0].get("wlog").and_then(|w| w.as_array()) { Some(w) => w.clone(), None => Vec::new() };
+    let mut ev: Vec<Value> = Vec::new();
+    ev.push(json!({"e": "init", "ds": 16, "de": total_blocks, "fmt": 3, "ttl": true, "nk": keys.len(), "now": rk(now), "cc": o.num("cc", 2u32)}));
+    for g in &gens.gens {
+        ev.push(json!({"e": "gen", "g": g.id, "k": g.kid, "ts": rk(g.ts), "exp": rk(g.exp), "n": g.blocks}));
+    }
+    ev.push(json!({"e": "image", "img": absdev::classify_image(&img, 3, &gens)}));
+    ev.push(rec_event(&cut0[0], &r0[0], &keys, &gens, &rk));
+    let mut dev = ConcreteDev::new(img.len());
+    dev.durable = img.clone();
+    let mut cuts: Vec<Cut> = Vec::new();
+    let mut nf = 0;
+    for w in &wl {
+        if w["k"] == "w" {
+            let data = absdev::unhex(w["hex"].as_str().unwrap_or(""));
+            let sec = w["s"].as_u64().unwrap_or(0);
+            dev.write(sec, &data);
+            ev.push(json!({"e": "w", "w": absdev::classify_write(sec, &data, 3, total_blocks, &gens)}));
+        } else {
+            dev.fsync();
+            ev.push(json!({"e": "fsync"}));
+            let p = format!("{dir}/f{nf}.bin");
+            std::fs::write(&p, dev.image(&[])).expect("write nested image");
+            cuts.push(Cut { at_event: ev.len() - 1, now, units: vec![], img: p });
+            nf += 1;
+        }
+    }
+    let res = recover_images(&cuts, &keys, true, &dir, 4, false);
+    let mut by: HashMap<usize, Value> = HashMap::new();
+    for (c, r) in cuts.iter().zip(res.iter()) {
+        by.insert(c.at_event, rec_event(c, r, &keys, &gens, &rk));
+    }
+    let mut f = std::io::BufWriter::new(std::fs::File::create(&out_path).expect("out"));
+    for (i, e) in ev.iter().enumerate() {
+        writeln!(f, "{}", e).unwrap();
+        if let Some(r) = by.get(&i) { writeln!(f, "{}", r).unwrap(); }
+    }
+    f.flush().unwrap();
+    for c in &cuts { let _ = std::fs::remove_file(&c.img); }
+    let _ = std::fs::remove_file(&base_path);
+    let exposed: Vec<usize> = res.iter().map(|r| r["len"].as_u64().unwrap_or(0) as usize).collect();
+    println!("{}", json!({"keys": n, "recovery_writes": wl.len(), "fsync_cuts": cuts.len(),
+        "first_recovery_len": r0[0]["len"], "len_after_each_cut": exposed}));
+    0
 }
